@@ -46,8 +46,35 @@ THEOREMS = [
     "Ural.Props.C06.fp_lang_label_string_partial",
     "Ural.Props.C06.fp_gl_hl_string",
     "Ural.Props.C06.fp_shape_whole",
+    # "everything normalize_url ignores": fp(T u) = fp(u) on strings for C04's family (Props/C06Fp.lean, via
+    # Props/C04Lower.lean: C04's theorems for both values of `lowercase`, on the tuple, at fpOpts)
+    "Ural.Props.C04.normalizeUrlSplit_partsG",
+    "Ural.Props.C06.fp_string_of_partsG",
+    "Ural.Props.C06.fp_scheme_string",
+    "Ural.Props.C06.fp_userinfo_string",
+    "Ural.Props.C06.fp_irrelevant_label_string",
+    "Ural.Props.C06.fp_amp_dash_string",
+    "Ural.Props.C06.fp_trailing_slash_string",
+    "Ural.Props.C06.fp_index_string",
+    "Ural.Props.C06.fp_fragment_string",
+    "Ural.Props.C06.fp_tracking_item_string",
+    "Ural.Props.C06.fp_tracking_item_first_string",
+    "Ural.Props.C06.fp_tracking_item_alone_string",
+    "Ural.Props.C06.fp_query_permutation_string",
+    "Ural.Props.C06.fp_amp_semicolon_string_partial",
+    "Ural.Props.C06.fp_escape_spelling_string",
+    "Ural.Props.C06.fp_escape_case_string",
+    "Ural.Props.C06.fp_clean_string",
+    "Ural.Props.C06.fp_surrounding_ws_string",
+    "Ural.Props.C06.fp_suffix_swap_string_partial",
+    # the shape clause on the printed string (Props/C06Shape.lean)
+    "Ural.Props.C06.fpString_host_then_tail",
+    "Ural.Props.C06.fpString_hostless",
+    "Ural.Props.C06.bracket_safe",
+    "Ural.Props.C06.fingerprinted_host_safe",
+    "Ural.Props.C06.fp_printed_whole",
 ]
-EXTRA_IMPORTS = ["UralModel.Props.C06Whole"]
+EXTRA_IMPORTS = ["UralModel.Props.C06Whole", "UralModel.Props.C06Fp", "UralModel.Props.C06Shape"]
 TABLE_OBLIGATIONS = [
     "Ural.Props.C06.langQueryKeys_has",
     "Ural.Props.C06.lang_keys_in_no_combo",
@@ -58,7 +85,8 @@ RULE = (
     "T rewrites one textually located piece of the string (harness/c06_common.py): ASCII/Unicode case flips of the whole string or of "
     "one component (scheme, userinfo, host, path, query, fragment, the hex digits of escapes); port set to None / 1..65535; a label "
     "prepended to the host (every two-letter label, i.e. the whole ISO set and its whole complement, xx-yy pairs with good and bad "
-    "halves, look-alikes); a gl / hl item (any case, several values) inserted at every position of the query; the public suffix "
+    "halves, look-alikes, every ISO code spelled with dotless i / long s (str.upper maps them to I / S: KF-C06-5) or the Kelvin sign "
+    "(str.lower maps it to k: a case variant, the label is judged after str.lower)); a gl / hl item (any case, several values) inserted at every position of the query; the public suffix "
     "swapped among bundled suffixes of 1-3 labels; and a sample of what normalize_url documents as irrelevant (scheme, userinfo, "
     "www/m/mobile/amp labels, default port, trailing slash, index page, fragment, tracking items, item order, &amp;, escape "
     "spelling, whitespace, control characters). urllib is asked whether the rewrite did what it names (else the case is dropped). "
@@ -79,7 +107,7 @@ RULE = (
     "Non-trivial = T(u) != u; distinct = distinct (u, T, options)."
 )
 EXHAUSTIVE = {
-    "quick": "all 676 two-letter labels (the 249 ISO codes and the 427 non-codes) on 4 hosts; gl/hl/GL/hL x 7 values at every "
+    "quick": "all 676 two-letter labels (the 249 ISO codes and the 427 non-codes) on 4 hosts; every ISO code with i / s / k written as dotless i / long s / Kelvin sign, alone and in both halves of xx-yy; gl/hl/GL/hL x 7 values at every "
     "position of 12 query shapes; ports None,1,80,443,8080,65535,... on 41 bases x 4 option pairs, 29 well-known ports on 6 bases, every 31st port 1..65535 "
     "(seeded offset) on one base; all ordered pairs of 14 suffixes (1-3 labels, incl. private and 'www.ro') x 6 domain shapes; 10 case components on 56 bases",
     "thorough": "as quick, plus every port 1..65535 on one base and every 7th on a second (both option bits on), the two-letter "
@@ -102,7 +130,8 @@ TRUSTED = [
     "Platform.platformConcrete (Model/Platform.lean, the C19 models of ural/facebook.py / ural/youtube.py), compared with the real fingerprint_url(u, platform_aware=True); "
     "cases outside the component models' stated domains are counted (pa:outside-model:*) and withheld",
     "str.lower / str.upper beyond ASCII are the identity in the model (generators avoid the other characters for the model lines; "
-    "the oracle runs on everything)",
+    "the oracle runs on everything): the case theorems are about ASCII case; the country-code test of the model is the ASCII one "
+    "(the code's Unicode str.upper differs on dotless i / long s: KF-C06-5, patch prepared)",
 ]
 ASSUMPTIONS = [
     "AccLaws E.netlocAcc (proved for pyNetlocAcc), WalkLaws E.walkHost (proved for pyWalkHost), CcLaws E.isCC (proved for the "
@@ -110,18 +139,41 @@ ASSUMPTIONS = [
     "HostSafe: the host normalize_url leaves has none of '@', '[', ']' (CPython's hostname never has; puny is arbitrary so it is stated)",
 ]
 UNPROVED = (
+    "WHICH THEOREM CARRIES WHICH CLAUSE. 'Ignores everything normalize_url ignores': fp_factor / fp_of_norm_eq / fp_of_normParts_eq only "
+    "unfold the definition (hypothesis = equality of the very normalize_url call: lemmas); the clause is carried by Props/C06Fp.lean: for every "
+    "transformation T of C04's family, fingerprintUrlString(T u) = fingerprintUrlString(u) (tuple and string, both strip_suffix, any "
+    "suffix trie, any idna decoder) - fp_scheme_string, fp_userinfo_string, fp_irrelevant_label_string, fp_amp_dash_string (hypotheses of C04.norm_amp_dash_string), fp_trailing_slash_string, "
+    "fp_index_string, fp_fragment_string, fp_tracking_item_string / _first_ / _alone_, fp_query_permutation_string, "
+    "fp_amp_semicolon_string_partial (same exclusion as C04: not in front of an item starting with 'amp;'), fp_escape_spelling_string, "
+    "fp_escape_case_string (an escaped capital: '/%41', '/%61', '/a' - D25 / e39f899), fp_clean_string / fp_surrounding_ws_string "
+    "(every string that parses, any platform rewriting); default port and host case are fp_port_string and fp_case_string - for every "
+    "pair u, u' such that the cleaned, resolved forms of u.lower() and u'.lower() are g.str and (T g).str in the grammar class "
+    "NormBridge.UrlG.wf, platform_aware off. They instantiate at fpOpts (lowercase := true) the theorems of Props/C04Lower.lean, which "
+    "re-prove C04's path / query / fragment theorems for BOTH values of `lowercase` (hypotheses read on the unescaped, case-folded text). "
+    "C04's readings and exclusions carry over (amp- cut once, '&amp;' not in front of 'amp;', permutation without 'amp;' items). "
+    "'Letter case': fp_case_insensitive / fp_case_flip / fp_case_string are congruences on `lower url` where `lower` is the model's "
+    "ASCII str.lower: they prove that ASCII case flips anywhere are ignored; a non-ASCII case pair (e-acute / E-acute, Kelvin sign / k) "
+    "is outside the model alphabet - exercised by the oracle on the real code (C03's HostCase laws describe what Python's lower does to hosts). "
     "fp_lang_label_partial: side conditions hamp (rest starts with 'amp-'), hsingle (rest starts with a second language label), hdf "
-    "(per-domain filter chosen alike) - each excluded region really differs (witness examples, fullLangLabel_fails). "
+    "(per-domain filter chosen alike) - each excluded region really differs (witness examples, fullLangLabel_fails). The country-code "
+    "test of the model is `code.upper() in ISO` with the ASCII upper: the REAL test uses Python's str.upper, which also maps dotless i "
+    "and long s to I and S - KF-C06-5 (a non-code label is stripped; patch notes/fixes/c06-country-code-ascii-letters.diff); with the patch "
+    "the code's test is the model's on every string (CcLaws.alpha, strip_lang_iff, fp_lang_not_stripped describe the patched code; the "
+    "affected labels are outside the model alphabet, so no model line sees the difference). "
     "fp_suffix_swap_partial: the suffix is judged after the language label is stripped and hdf - excluded regions really differ "
-    "(KF-C06-2, KF-C06-3, fullSuffixSwap_fails). Port / label / item / suffix theorems of Props/C06.lean are about Parsed records; "
-    "Props/C06Whole.lean states case (every string), port, language label (partial, same side conditions), gl/hl and the shape "
-    "clause on STRINGS for the whole-string model fingerprintUrlString with the modelled parser, for every u such that the "
-    "cleaned, resolved form of u.lower() is in the grammar class NormBridge.UrlG.wf (host name or bracketed IP literal); the "
-    "suffix swap stays component-level. That the modelled parser is CPython's is compared on every run, not proved; under platform_aware=True: letter case is irrelevant for every string (fp_case_string_pa: the url is lower-cased before the branch sees it); off facebook / youtube hosts the "
-    "port / language-label / gl-hl / shape theorems hold with the option on (Props/C05Platform.lean, listed under C05: Ural.Props.C06.fp_*_string_pa, hypothesis NotPlatform); on platform urls the commutation of T with "
-    "the facebook/youtube rewriting is false by design (KF-C06-4 = D53: it reads the string before unescaping; d53_escaped_path_letter, fullPlatformInvariance_false are theorems about the concrete branch). Escaped capitals: since e39f899 normalize_url(lowercase="
-    "True) folds the case right after unescaping; the equation fp('/%41') = fp('/a') is covered by the oracle (C04 family) and by "
-    "fp_lower_closed (result closed under lower), not by a general theorem."
+    "(KF-C06-2, KF-C06-3, fullSuffixSwap_fails); on STRINGS: fp_suffix_swap_string_partial (same side conditions, plain hosts). Port / label / "
+    "item / suffix theorems of Props/C06.lean are about Parsed records; "
+    "Props/C06Whole.lean / C06Fp.lean state case (every string), port, language label (partial, same side conditions), gl/hl, suffix swap "
+    "and C04's family on STRINGS for the whole-string model fingerprintUrlString with the modelled parser, for every u such that the "
+    "cleaned, resolved form of u.lower() is in the grammar class NormBridge.UrlG.wf (host name or bracketed IP literal). "
+    "'Never carries a scheme, userinfo or port' on the PRINTED string (Props/C06Shape.lean): fp_printed_whole - on the class, the string "
+    "is the netloc `bracket H` (H free of '@', '[', ']': no userinfo; either no ':' at all or the IP literal [H]: no port) immediately "
+    "followed by the end, '/', '?' or '#'; under strip_suffix=True for plain language-stripped hosts (hypothesis hpl). Hostless result "
+    "(fpString_hostless): the string is path?query#fragment, empty or starting with '/', '?', '#', UNDER the hypothesis that the result's "
+    "path is empty or starts with exactly one slash (decidable on the result; that normalize_url's path has this shape is not derived). "
+    "That the modelled parser is CPython's is compared on every run, not proved; under platform_aware=True: letter case is irrelevant for every string (fp_case_string_pa), off facebook / youtube hosts the string "
+    "theorems hold with the option on (Props/C05Platform.lean: fp_*_string_pa, hypothesis NotPlatform), on platform urls the family is NOT "
+    "respected by design (KF-C06-4 = D53; theorems d53_* about the concrete branch)."
 )
 
 # ---------------------------------------------------------------------------------------
@@ -161,6 +213,31 @@ def is_lang(label):
         return ascii_upper(label) in iso()
     m = LANG2.match(label)
     return bool(m) and ascii_upper(m.group(1)) in iso() and ascii_upper(m.group(2)) in iso()
+
+
+def upper_only_code(label):
+    """KF-C06-5's class: a label 'xx' / 'xx-yy' (as fingerprint_url sees it, i.e. after str.lower) that is NOT a code - it
+    holds a non-ASCII character - but whose halves str.upper() maps into the ISO set: dotless i (U+0131, upper 'I') and
+    long s (U+017F, upper 'S') are the only characters with a one-character ASCII upper-case form"""
+    lab = label.lower()
+    halves = lab.split("-")
+    return (not lab.isascii()) and len(halves) in (1, 2) and all(len(h) == 2 and h.upper() in iso() for h in halves)
+
+
+def lookalike_codes():
+    """every ISO code with its I / S written as dotless i / long s, the other letter in lower case
+    ('\u0131s' for IS, 's\u017f' for SS, ...), and the Kelvin sign (U+212A, str.lower gives 'k': a case variant of
+    the code, the positive half applies) for K"""
+    out = []
+    for c in sorted(iso()):
+        lo = c.lower()
+        for a, b in (("i", "\u0131"), ("s", "\u017f"), ("k", "\u212a")):
+            if a in lo:
+                out.append(lo.replace(a, b))
+                if lo.count(a) == 2:
+                    out.append(lo[0] + b)
+                    out.append(b + lo[1])
+    return out
 
 
 # ---------------------------------------------------------------------------------------
@@ -204,6 +281,9 @@ CORPUS = [
     _c("youtube.com/watch?v=abcdefghijk&t=1", ["swap", "com", "co.uk"], ss=True),
     _c("http://fr.com/", ["swap", "com", "co.uk"], ss=True),
     _c("https://www.facebook.com/PERMALINK.PHP?story_fbid=1&id=2", ["norm", "escape-all", 0], pa=True),
+    # KF-C06-5: str.upper() takes dotless i / long s for I / S
+    _c("http://a.com/x", ["label", "\u0131s"]), _c("http://a.com/x", ["label", "\u017fe"]), _c("http://a.com/x", ["label", "fr-\u017fe"]),
+    _c("http://a.com/x", ["label", "\u212ae"]),
 ]
 
 FIXED_BASES = [
@@ -284,6 +364,15 @@ def cases(rng, tier):
         for lab in NON_LANG + ["FR", "Fr", "fr-FR", "FR-fr", "EN-us", "pt-BR", "zh-CN"]:
             for ss, pa in grid:
                 yield _c(u, ["label", lab], ss, pa)
+    # labels that only str.upper() takes for codes (dotless i, long s), in either half; Kelvin sign (str.lower: 'k')
+    looks = lookalike_codes()
+    for u in LABEL_HOSTS[:2] if quick else LABEL_HOSTS:
+        for lab in looks:
+            yield _c(u, ["label", lab], False, False)
+    for lab in looks:
+        yield _c(LABEL_HOSTS[0], ["label", rng.choice(codes).lower() + "-" + lab], False, False)
+        yield _c(LABEL_HOSTS[3], ["label", lab + "-" + rng.choice(codes)], False, rng.random() < 0.3)
+        yield _c(LABEL_HOSTS[1], ["label", lab + "-" + rng.choice(looks)], rng.random() < 0.3, False)
     npairs = 300 if quick else 6000
     for _ in range(npairs):
         a, b = rng.choice(codes), rng.choice(codes)
@@ -356,6 +445,10 @@ def random_T(rng, u):
             lab = rng.choice(codes) + "-" + rng.choice(codes)
         elif x < 0.8:
             lab = rng.choice("abcdefghijklmnopqrstuvwxyz") + rng.choice("abcdefghijklmnopqrstuvwxyz")
+        elif x < 0.84:
+            lab = rng.choice(lookalike_codes())
+            if rng.random() < 0.4:
+                lab = rng.choice([lab + "-" + rng.choice(codes), rng.choice(codes).lower() + "-" + lab])
         else:
             lab = rng.choice(NON_LANG)
         return ["label", tf.flip(lab, rng, 0.3)]
@@ -566,7 +659,8 @@ def oracle(case):
         # of the host is normalized as it is without the label
         if not nu or nv != lab + "." + nu:
             return None
-        if is_lang(T[1]) and nu.count(".") >= 1:
+        # (the label is judged as fingerprint_url sees it, after str.lower: the case clause; 'K' (Kelvin sign) + 'e' is 'ke')
+        if is_lang(lab) and nu.count(".") >= 1:
             # reading: *a* leading label — the base host does not start with a second one
             if nu.count(".") >= 2 and is_lang(nu.split(".")[0]):
                 return None
@@ -575,7 +669,7 @@ def oracle(case):
         # on the host when the suffix is kept)
         if not ss and first_label(tv) != lab:
             return "fingerprint_url(%r) == %r: the label %r (%s) was stripped" % (
-                v, sv, T[1], "not a country code" if not is_lang(T[1]) else "only one label remains after it")
+                v, sv, T[1], "not a country code" if not is_lang(lab) else "only one label remains after it")
         return None
     if k == "swap":
         if not ss:
@@ -665,6 +759,20 @@ def kf_lang_vs_suffix(case, failure):
     return is_lang(d) and (case["T"][1].count(".") == 0) != (case["T"][2].count(".") == 0)
 
 
+def kf_unicode_upper_code(case, failure):
+    """a two-letter (or xx-yy) label that is not a country code - it holds dotless i / long s - is stripped because the code asks
+    `label.upper() in ISO_3166_1_COUNTRIES_ALPHA_2` with the Unicode str.upper(). Seen (a) in the negative half, when T prepends
+    such a label; (b) in the positive half / suffix swap on a BASE whose own first label (as normalize_url leaves it) is such a
+    label: the base loses it, T(u) shields it behind the real code (or the other suffix leaves one label less)"""
+    k = case["T"][0]
+    if k == "label" and upper_only_code(case["T"][1]) and "(not a country code) was stripped" in failure:
+        return True
+    if k in ("label", "swap") and " but for T(u) = " in failure:
+        nu = nhost(case["u"], case["pa"])
+        return bool(nu) and upper_only_code(nu.split(".")[0])
+    return False
+
+
 # ---------------------------------------------------------------------------------------
 def nontrivial(case):
     u, v = _pair(case)
@@ -680,7 +788,9 @@ def classify(case):
     if k == "case":
         labs.append("case:" + T[1])
     elif k == "label":
-        labs.append("label:" + ("iso" if is_lang(T[1]) else "not-iso") + (":xx-yy" if "-" in T[1] else ""))
+        labs.append("label:" + ("iso" if is_lang(T[1].lower()) else "not-iso") + (":xx-yy" if "-" in T[1] else ""))
+        if not T[1].isascii():
+            labs.append("label:upper-only-code" if upper_only_code(T[1]) else "label:non-ascii")
     elif k == "norm":
         labs.append("norm:" + T[1])
     elif k == "port":
